@@ -1011,3 +1011,14 @@ def normal(F, node, keep=(), max_size=400):
     split"""
     skip = (lambda c: last(c) in keep) if keep else ()
     return beta(unlet(split_tuple_lets(inline_helpers(F, node, max_size=max_size, skip=skip))))
+
+
+def replace_nodes(n, by_id):
+    """copy of n with the nodes whose id() is a key of by_id replaced by the mapped nodes"""
+    if isinstance(n, list):
+        return [replace_nodes(x, by_id) for x in n]
+    if not isinstance(n, dict):
+        return n
+    if id(n) in by_id:
+        return by_id[id(n)]
+    return {k: replace_nodes(v, by_id) for k, v in n.items()}
